@@ -112,6 +112,18 @@ def profile_metablocks(draw):
     """many inodes/entries so that the inode and directory tables cross 8 KiB blocks at varying alignments"""
     n = draw(st.integers(150, 700))
     pad = draw(st.integers(0, 60))
+    if draw(st.sampled_from([False, False, True])):
+        # metadata that does not compress: several 8 KiB blocks of the inode / directory / xattr tables are stored raw
+        import random
+        rng = random.Random(draw(st.integers(0, 1000)))
+        rb = lambda k: bytes(rng.choice(b"abcdefghijklmnopqrstuvwxyzABCDEFGHIJKLMNOPQRSTUVWXYZ0123456789") for _ in range(k))
+        nodes = []
+        for i in range(draw(st.integers(20, 60))):
+            nodes.append(dict(path=b"l%02d" % i + rb(draw(st.sampled_from([20, 200]))), type="slink", mode=0o777, uid=0, gid=0, mtime=0, xattrs={},
+                              target=rb(draw(st.sampled_from([300, 900, 2500])))))
+        for i in range(draw(st.integers(0, 24))):      # (values stay below what the host file system can store when unpacking)
+            nodes.append(_file(b"x%02d" % i, ("lit", b"v"), xattrs={b"user.blob": bytes(rng.randrange(1, 256) for _ in range(draw(st.sampled_from([900, 1500, 1800]))))}))
+        return nodes
     nodes = [_dir(b"p" * (pad + 1))]
     for i in range(n):
         t = i % 7
@@ -150,6 +162,9 @@ def cases(draw, tier="quick", force_sel=None):
                 case["mode"] = "file"
         elif prof == "meta":
             case["nodes"] = draw(profile_metablocks())
+            if any(n.get("xattrs") for n in case["nodes"]):
+                case["mode"] = "file"
+                case["xattr_file"] = [(n["path"], n["xattrs"]) for n in case["nodes"] if n.get("xattrs")]
         elif prof == "xattr_sets":
             case["nodes"] = draw(profile_xattr_sets())
             case["mode"] = "file"
